@@ -128,6 +128,7 @@ def real_listing(d, t0_ns):
 
 
 MSG_PATTERNS = [
+    ("is the input file", ("warn", "samefile")),
     ("lstat()", ("warn", "lstat")), ("not a regular file", ("warn", "notreg")),
     ("more than one links", ("warn", "links")), ("compressed suffix", ("warn", "suffix")),
     ("fstat()", ("warn", "fstat")), ("won't restore", ("warn", "special")),
@@ -594,3 +595,4 @@ class Gen:
             names["bystander"] = ("L", new_inode("r", b"bystander"))
         scn = {"inodes": inodes, "names": names, "ops": ops, "flags": flags, "plan": None}
         return scn, hist
+
